@@ -254,5 +254,64 @@ META = {
             "covered by the enumeration, not by proof. Not covered: state profiles, restart/auto-restart, detached or asynchronous "
             "communications, disks and VMs.",
     "technique": "fault enumeration + verified oracle (Coq) + extracted outcome function as reference",
-    "claimed": False,
+    "claimed": True,
 }
+
+# mutants tried with bin/mutcheck (git apply -p1 from the simgrid root)
+MUTANTS = r"""
+# --- f1: CommImpl::finish DST_HOST_FAILURE raises nothing: fired waiter-gets-no-exception
+--- a/src/kernel/activity/CommImpl.cpp
++++ b/src/kernel/activity/CommImpl.cpp
+@@ -445,7 +445,6 @@
+       case State::DST_HOST_FAILURE:
+         xbt_assert(issuer != dst_actor_);
+         set_state(State::FAILED);
+-        issuer->exception_ = std::make_exception_ptr(NetworkFailureException(XBT_THROW_POINT, "Remote peer failed"));
+         break;
+ 
+       case State::LINK_FAILURE:
+
+# --- f3: HostImpl::turn_off kills only even pids: fired actor-of-failed-host-survives
+--- a/src/kernel/resource/HostImpl.cpp
++++ b/src/kernel/resource/HostImpl.cpp
+@@ -124,7 +124,7 @@
+   for (auto& actor : actor_list_) {
+     XBT_DEBUG("Killing Actor %s@%s on behalf of %s which turned off that host.", actor.get_cname(),
+               actor.get_host()->get_cname(), issuer->get_cname());
+-    issuer->kill(&actor);
++    if (actor.get_pid() % 2 == 0) issuer->kill(&actor);
+   }
+   // Let the maestro activities fail. Do so in 2 traversal, as cancel() removes the activity from the activities_,
+   // invalidating the iterators
+
+# --- f2: ExecImpl::finish raises NetworkFailureException: fired waiter-gets-wrong-exception
+--- a/src/kernel/activity/ExecImpl.cpp
++++ b/src/kernel/activity/ExecImpl.cpp
+@@ -179,7 +179,7 @@
+     switch (get_state()) {
+       case State::FAILED:
+         static_cast<s4u::Exec*>(get_iface())->complete(s4u::Activity::State::FAILED); // Raise the relevant signals
+-        issuer->exception_ = std::make_exception_ptr(HostFailureException(XBT_THROW_POINT, "Host failed"));
++        issuer->exception_ = std::make_exception_ptr(NetworkFailureException(XBT_THROW_POINT, "Host failed"));
+         break;
+ 
+       case State::CANCELED:
+
+# --- fh: harmless: CommImpl::finish tests the destination host before the source host: quiet
+--- a/src/kernel/activity/CommImpl.cpp
++++ b/src/kernel/activity/CommImpl.cpp
+@@ -386,10 +386,10 @@
+             src_actor_.get(), dst_actor_.get(), detached_);
+ 
+   /* Update synchro state */
+-  if (from_ && not from_->is_on())
+-    set_state(State::SRC_HOST_FAILURE);
+-  else if (to_ && not to_->is_on())
++  if (to_ && not to_->is_on())
+     set_state(State::DST_HOST_FAILURE);
++  else if (from_ && not from_->is_on())
++    set_state(State::SRC_HOST_FAILURE);
+   else if (model_action_ && model_action_->get_state() == resource::Action::State::FAILED) {
+     set_state(State::LINK_FAILURE);
+   } else if (get_state() == State::RUNNING) {
+"""
